@@ -1,7 +1,9 @@
 //! C04 correspondence: a harness RWA token (`RWAToken` + `Pausable` + `FungibleToken<RWA>` over the
-//! library functions of packages/tokens/src/rwa/storage.rs) wired to MOCK identity-verifier and
-//! compliance contracts that are scriptable and log every call. Driven through real invocations in
-//! the native Soroban host with exact authorization subsets.
+//! library functions of packages/tokens/src/rwa/storage.rs) wired to a MOCK identity verifier and to
+//! the REAL modular compliance contract (a harness contract over the library functions of
+//! packages/tokens/src/rwa/compliance/storage.rs, token bound through the library's token binder)
+//! with three scriptable MOCK compliance modules; every contract logs every call it receives.
+//! Driven through real invocations in the native Soroban host with exact authorization subsets.
 //!
 //! Operator policy of the harness token (modelled exactly in lean/OZ/Model/Rwa.lean `opAuth`):
 //! `operator.require_auth()` and `operator == admin` (the admin is fixed by the constructor).
@@ -13,7 +15,11 @@ use soroban_sdk::{
 use stellar_contract_utils::pausable::{self as pausable, Pausable};
 use stellar_tokens::{
     fungible::FungibleToken,
-    rwa::{RWAError, RWAToken, RWA},
+    rwa::{
+        compliance::{storage as cstore, Compliance, ComplianceHook},
+        utils::token_binder::{self, TokenBinder},
+        RWAError, RWAToken, RWA,
+    },
 };
 
 // ------------------------------------------------------------------------------------------
@@ -72,19 +78,117 @@ impl Idv {
 }
 
 // ------------------------------------------------------------------------------------------
-// mock compliance: can_transfer / can_create = flag && parties not blocked && amount <= cap;
-// hooks require the bound token's authorization (as the library's compliance does) and are logged
+// the REAL modular compliance contract: the library's rwa::compliance::storage functions behind a
+// harness contract (operator policy as for the token); every call the token makes is logged before
+// it is dispatched to the registered modules
 // ------------------------------------------------------------------------------------------
 #[contracttype]
 pub enum CompKey {
+    Admin,
+    Log,
+}
+
+#[contract]
+pub struct RealComp;
+
+/// kind: 0 can_transfer, 1 can_create, 2 transferred, 3 created, 4 destroyed
+fn comp_log(e: &Env, kind: u32, a: &Address, b: &Address, amount: i128) {
+    let mut l: soroban_sdk::Vec<(u32, Address, Address, i128)> = e.storage().instance().get(&CompKey::Log).unwrap_or(soroban_sdk::Vec::new(e));
+    l.push_back((kind, a.clone(), b.clone(), amount));
+    e.storage().instance().set(&CompKey::Log, &l);
+}
+
+fn comp_op_auth(e: &Env, operator: &Address) {
+    operator.require_auth();
+    let admin: Address = e.storage().instance().get(&CompKey::Admin).expect("admin");
+    if admin != *operator {
+        panic_with_error!(e, RWAError::IdentityMismatch);
+    }
+}
+
+#[contractimpl]
+impl RealComp {
+    pub fn __constructor(e: &Env, admin: Address) {
+        e.storage().instance().set(&CompKey::Admin, &admin);
+    }
+    pub fn take_log(e: &Env) -> soroban_sdk::Vec<(u32, Address, Address, i128)> {
+        let l: soroban_sdk::Vec<(u32, Address, Address, i128)> = e.storage().instance().get(&CompKey::Log).unwrap_or(soroban_sdk::Vec::new(e));
+        e.storage().instance().remove(&CompKey::Log);
+        l
+    }
+    pub fn is_bound(e: &Env, token: Address) -> bool {
+        token_binder::is_token_bound(e, &token)
+    }
+}
+
+#[contractimpl]
+impl TokenBinder for RealComp {
+    fn linked_tokens(e: &Env) -> soroban_sdk::Vec<Address> {
+        token_binder::linked_tokens(e)
+    }
+    fn bind_token(e: &Env, token: Address, operator: Address) {
+        comp_op_auth(e, &operator);
+        token_binder::bind_token(e, &token);
+    }
+    fn unbind_token(e: &Env, token: Address, operator: Address) {
+        comp_op_auth(e, &operator);
+        token_binder::unbind_token(e, &token);
+    }
+}
+
+#[contractimpl]
+impl Compliance for RealComp {
+    fn add_module_to(e: &Env, hook: ComplianceHook, module: Address, operator: Address) {
+        comp_op_auth(e, &operator);
+        cstore::add_module_to(e, hook, module);
+    }
+    fn remove_module_from(e: &Env, hook: ComplianceHook, module: Address, operator: Address) {
+        comp_op_auth(e, &operator);
+        cstore::remove_module_from(e, hook, module);
+    }
+    fn get_modules_for_hook(e: &Env, hook: ComplianceHook) -> soroban_sdk::Vec<Address> {
+        cstore::get_modules_for_hook(e, hook)
+    }
+    fn is_module_registered(e: &Env, hook: ComplianceHook, module: Address) -> bool {
+        cstore::is_module_registered(e, hook, module)
+    }
+    fn transferred(e: &Env, from: Address, to: Address, amount: i128, token: Address) {
+        comp_log(e, 2, &from, &to, amount);
+        cstore::transferred(e, from, to, amount, token);
+    }
+    fn created(e: &Env, to: Address, amount: i128, token: Address) {
+        comp_log(e, 3, &to, &to, amount);
+        cstore::created(e, to, amount, token);
+    }
+    fn destroyed(e: &Env, from: Address, amount: i128, token: Address) {
+        comp_log(e, 4, &from, &from, amount);
+        cstore::destroyed(e, from, amount, token);
+    }
+    fn can_transfer(e: &Env, from: Address, to: Address, amount: i128, token: Address) -> bool {
+        comp_log(e, 0, &from, &to, amount);
+        cstore::can_transfer(e, from, to, amount, token)
+    }
+    fn can_create(e: &Env, to: Address, amount: i128, token: Address) -> bool {
+        comp_log(e, 1, &to, &to, amount);
+        cstore::can_create(e, to, amount, token)
+    }
+}
+
+// ------------------------------------------------------------------------------------------
+// MOCK compliance module (registered several times): verdict = flag && parties not blocked &&
+// amount <= cap, scriptable; the on_* hooks require the compliance contract's authorization;
+// every call is logged
+// ------------------------------------------------------------------------------------------
+#[contracttype]
+pub enum ModKey {
     Cfg,
-    Token,
+    Compliance,
     Log,
 }
 
 #[contracttype]
 #[derive(Clone)]
-pub struct CompCfg {
+pub struct ModCfg {
     pub tx_ok: bool,
     pub create_ok: bool,
     pub cap: i128,
@@ -92,59 +196,61 @@ pub struct CompCfg {
 }
 
 #[contract]
-pub struct Comp;
+pub struct Module;
 
-fn comp_cfg(e: &Env) -> CompCfg {
-    e.storage().instance().get(&CompKey::Cfg).unwrap_or(CompCfg { tx_ok: true, create_ok: true, cap: i128::MAX, blocked: soroban_sdk::Vec::new(e) })
+fn mod_cfg(e: &Env) -> ModCfg {
+    e.storage().instance().get(&ModKey::Cfg).unwrap_or(ModCfg { tx_ok: true, create_ok: true, cap: i128::MAX, blocked: soroban_sdk::Vec::new(e) })
 }
 
-/// kind: 0 can_transfer, 1 can_create, 2 transferred, 3 created, 4 destroyed; +10 when the
-/// `token` argument is not the bound token
-fn comp_log(e: &Env, kind: u32, a: &Address, b: &Address, amount: i128, token: &Address) {
-    let bound: Option<Address> = e.storage().instance().get(&CompKey::Token);
-    let k = if bound.as_ref() == Some(token) { kind } else { kind + 10 };
-    let mut l: soroban_sdk::Vec<(u32, Address, Address, i128)> = e.storage().instance().get(&CompKey::Log).unwrap_or(soroban_sdk::Vec::new(e));
-    l.push_back((k, a.clone(), b.clone(), amount));
-    e.storage().instance().set(&CompKey::Log, &l);
+/// kind: 0 can_transfer, 1 can_create, 2 on_transfer, 3 on_created, 4 on_destroyed
+fn mod_log(e: &Env, kind: u32, a: &Address, b: &Address, amount: i128) {
+    let mut l: soroban_sdk::Vec<(u32, Address, Address, i128)> = e.storage().instance().get(&ModKey::Log).unwrap_or(soroban_sdk::Vec::new(e));
+    l.push_back((kind, a.clone(), b.clone(), amount));
+    e.storage().instance().set(&ModKey::Log, &l);
+}
+
+fn mod_from_compliance(e: &Env) {
+    let c: Address = e.storage().instance().get(&ModKey::Compliance).expect("compliance");
+    c.require_auth();
 }
 
 #[contractimpl]
-impl Comp {
-    pub fn can_transfer(e: &Env, from: Address, to: Address, amount: i128, token: Address) -> bool {
-        comp_log(e, 0, &from, &to, amount, &token);
-        let c = comp_cfg(e);
+impl Module {
+    pub fn __constructor(e: &Env, compliance: Address) {
+        e.storage().instance().set(&ModKey::Compliance, &compliance);
+    }
+    pub fn can_transfer(e: &Env, from: Address, to: Address, amount: i128, _token: Address) -> bool {
+        mod_log(e, 0, &from, &to, amount);
+        let c = mod_cfg(e);
         c.tx_ok && !c.blocked.contains(&from) && !c.blocked.contains(&to) && amount <= c.cap
     }
-    pub fn can_create(e: &Env, to: Address, amount: i128, token: Address) -> bool {
-        comp_log(e, 1, &to, &to, amount, &token);
-        let c = comp_cfg(e);
+    pub fn can_create(e: &Env, to: Address, amount: i128, _token: Address) -> bool {
+        mod_log(e, 1, &to, &to, amount);
+        let c = mod_cfg(e);
         c.create_ok && !c.blocked.contains(&to) && amount <= c.cap
     }
-    pub fn transferred(e: &Env, from: Address, to: Address, amount: i128, token: Address) {
-        token.require_auth();
-        comp_log(e, 2, &from, &to, amount, &token);
+    pub fn on_transfer(e: &Env, from: Address, to: Address, amount: i128, _token: Address) {
+        mod_from_compliance(e);
+        mod_log(e, 2, &from, &to, amount);
     }
-    pub fn created(e: &Env, to: Address, amount: i128, token: Address) {
-        token.require_auth();
-        comp_log(e, 3, &to, &to, amount, &token);
+    pub fn on_created(e: &Env, to: Address, amount: i128, _token: Address) {
+        mod_from_compliance(e);
+        mod_log(e, 3, &to, &to, amount);
     }
-    pub fn destroyed(e: &Env, from: Address, amount: i128, token: Address) {
-        token.require_auth();
-        comp_log(e, 4, &from, &from, amount, &token);
+    pub fn on_destroyed(e: &Env, from: Address, amount: i128, _token: Address) {
+        mod_from_compliance(e);
+        mod_log(e, 4, &from, &from, amount);
     }
     // ---- scripting + getters (not logged)
-    pub fn bind(e: &Env, token: Address) {
-        e.storage().instance().set(&CompKey::Token, &token);
+    pub fn configure(e: &Env, cfg: ModCfg) {
+        e.storage().instance().set(&ModKey::Cfg, &cfg);
     }
-    pub fn configure(e: &Env, cfg: CompCfg) {
-        e.storage().instance().set(&CompKey::Cfg, &cfg);
-    }
-    pub fn config(e: &Env) -> CompCfg {
-        comp_cfg(e)
+    pub fn config(e: &Env) -> ModCfg {
+        mod_cfg(e)
     }
     pub fn take_log(e: &Env) -> soroban_sdk::Vec<(u32, Address, Address, i128)> {
-        let l: soroban_sdk::Vec<(u32, Address, Address, i128)> = e.storage().instance().get(&CompKey::Log).unwrap_or(soroban_sdk::Vec::new(e));
-        e.storage().instance().remove(&CompKey::Log);
+        let l: soroban_sdk::Vec<(u32, Address, Address, i128)> = e.storage().instance().get(&ModKey::Log).unwrap_or(soroban_sdk::Vec::new(e));
+        e.storage().instance().remove(&ModKey::Log);
         l
     }
 }
@@ -260,7 +366,42 @@ impl RWAToken for Tok {
 // simulation
 // ------------------------------------------------------------------------------------------
 const N: usize = 5;
+/// number of mock compliance modules
+const K: usize = 3;
 const MAX_TTL: u32 = 200_000;
+/// ComplianceHook in declaration order: Transferred, Created, Destroyed, CanTransfer, CanCreate
+const H_TRANSFERRED: usize = 0;
+const H_CREATED: usize = 1;
+const H_DESTROYED: usize = 2;
+const H_CAN_TRANSFER: usize = 3;
+const H_CAN_CREATE: usize = 4;
+
+fn hook_of(i: usize) -> ComplianceHook {
+    match i {
+        0 => ComplianceHook::Transferred,
+        1 => ComplianceHook::Created,
+        2 => ComplianceHook::Destroyed,
+        3 => ComplianceHook::CanTransfer,
+        _ => ComplianceHook::CanCreate,
+    }
+}
+
+#[derive(Clone, Debug, Default)]
+struct MCfg {
+    tx_ok: bool,
+    create_ok: bool,
+    cap: i128,
+    blocked: Vec<usize>,
+}
+
+impl MCfg {
+    fn can_transfer(&self, f: usize, t: usize, amt: i128) -> bool {
+        self.tx_ok && !self.blocked.contains(&f) && !self.blocked.contains(&t) && amt <= self.cap
+    }
+    fn open(&self) -> bool {
+        self.tx_ok && self.create_ok && self.blocked.is_empty() && self.cap >= 1000
+    }
+}
 
 #[derive(Clone, Debug, Default)]
 struct Snap {
@@ -272,10 +413,10 @@ struct Snap {
     ft: Vec<i128>,
     id: Vec<bool>,
     rec: Vec<Option<usize>>,
-    tx_ok: bool,
-    create_ok: bool,
-    cap: i128,
-    blocked: Vec<usize>,
+    bound: bool,
+    /// registered modules per hook, in registration order
+    mods: Vec<Vec<usize>>,
+    mcfg: Vec<MCfg>,
 }
 
 impl Snap {
@@ -285,15 +426,26 @@ impl Snap {
     fn allowance(&self, o: usize, s: usize) -> i128 {
         self.allow.iter().find(|(a, b, _)| *a == o && *b == s).map(|x| x.2).unwrap_or(0)
     }
+    /// the smallest amount cap among the modules consulted for transfers
+    fn cap(&self) -> i128 {
+        self.mods[H_CAN_TRANSFER].iter().map(|m| self.mcfg[*m].cap).min().unwrap_or(i128::MAX)
+    }
+    /// some registered verdict module is not wide open
+    fn comp_closed(&self) -> Option<usize> {
+        self.mods[H_CAN_TRANSFER].iter().chain(self.mods[H_CAN_CREATE].iter()).find(|m| !self.mcfg[**m].open()).copied()
+    }
     fn show(&self) -> String {
         let al: Vec<String> = self.allow.iter().map(|(o, s, a)| format!("{}:{}:{}", o, s, a)).collect();
         let b = |x: &bool| if *x { "1" } else { "0" }.to_string();
         let af: Vec<String> = self.af.iter().map(b).collect();
         let id: Vec<String> = self.id.iter().map(b).collect();
         let rec: Vec<String> = self.rec.iter().map(|r| r.map(|x| x.to_string()).unwrap_or("-".into())).collect();
-        let bl: Vec<String> = self.blocked.iter().map(|x| x.to_string()).collect();
+        let dots = |v: &Vec<usize>| if v.is_empty() { "-".to_string() } else { v.iter().map(|x| x.to_string()).collect::<Vec<_>>().join(".") };
+        let mods: Vec<String> = self.mods.iter().map(dots).collect();
+        let cap = |c: i128| if c == i128::MAX { "max".to_string() } else { c.to_string() };
+        let mcfg: Vec<String> = self.mcfg.iter().map(|c| format!("{}:{}:{}:{}", b(&c.tx_ok), b(&c.create_ok), cap(c.cap), dots(&c.blocked))).collect();
         format!(
-            "sup={} bal={} allow={} paused={} af={} ft={} id={} rec={} comp={}:{}:{}:{}",
+            "sup={} bal={} allow={} paused={} af={} ft={} id={} rec={} bound={} mods={} mcfg={}",
             self.sup,
             join(&self.bal),
             if al.is_empty() { "-".into() } else { al.join(";") },
@@ -302,10 +454,9 @@ impl Snap {
             join(&self.ft),
             id.join(","),
             rec.join(","),
-            b(&self.tx_ok),
-            b(&self.create_ok),
-            self.cap,
-            if bl.is_empty() { "-".into() } else { bl.join(".") }
+            b(&self.bound),
+            mods.join("/"),
+            mcfg.join("/")
         )
     }
 }
@@ -316,6 +467,7 @@ struct Sim {
     tok: Address,
     idv: Address,
     comp: Address,
+    modules: Vec<Address>,
     admin: usize,
     now: u32,
     min_temp: u32,
@@ -323,22 +475,36 @@ struct Sim {
 }
 
 impl Sim {
+    /// fresh token + identity verifier + REAL compliance contract (token bound, no module
+    /// registered) + K mock modules
     fn new(min_temp: u32, start: u32, admin: usize) -> Sim {
         let e = new_env(start, min_temp, MAX_TTL);
         let u = Universe::new(&e, N);
         let idv = e.register(Idv, ());
-        let comp = e.register(Comp, ());
+        let comp = e.register(RealComp, (u.a(admin).clone(),));
+        let modules: Vec<Address> = (0..K).map(|_| e.register(Module, (comp.clone(),))).collect();
         let tok = e.register(Tok, (u.a(admin).clone(), comp.clone(), idv.clone()));
-        call_all_auth(&e, &comp, "bind", args(&e, [v(&e, &tok)])).expect("bind");
-        let mut s = Sim { e, u, tok, idv, comp, admin, now: start, min_temp, snap: Snap::default() };
+        call_all_auth(&e, &comp, "bind_token", args(&e, [v(&e, &tok), v(&e, u.a(admin))])).expect("bind");
+        let mut s = Sim { e, u, tok, idv, comp, modules, admin, now: start, min_temp, snap: Snap::default() };
         s.snap = s.read();
         s
     }
     fn label(&self, what: &str) -> String {
         format!("{} admin={} min_temp={} start={}", what, self.admin, self.min_temp, self.now)
     }
+    /// module 0 registered for all five hooks: the compliance contract then behaves like one
+    /// scriptable verdict (`env_comp`) that is told about every transfer / mint / burn
+    fn single_module(&mut self, t: &mut Trace) {
+        let admin = self.admin;
+        for h in 0..5 {
+            self.exec(t, "add_module", &[0, admin], 0, h as u32, false, &[admin]);
+        }
+    }
     fn q<T: TryFromVal<Env, Val>>(&self, c: &Address, f: &str, a: soroban_sdk::Vec<Val>) -> T {
         query(&self.e, c, f, a).unwrap_or_else(|| panic!("query {} failed", f))
+    }
+    fn mod_ix(&self, a: &Address) -> usize {
+        self.modules.iter().position(|m| m == a).unwrap_or(99)
     }
     fn read(&self) -> Snap {
         let e = &self.e;
@@ -360,24 +526,51 @@ impl Sim {
                 }
             }
         }
-        let c: CompCfg = self.q(&self.comp, "config", args(e, []));
-        s.tx_ok = c.tx_ok;
-        s.create_ok = c.create_ok;
-        s.cap = c.cap;
-        s.blocked = c.blocked.iter().map(|a| self.u.index_of(&a).unwrap_or(99)).collect();
-        s.blocked.sort();
+        s.bound = self.q(&self.comp, "is_bound", args(e, [v(e, &self.tok)]));
+        for h in 0..5 {
+            let l: soroban_sdk::Vec<Address> = self.q(&self.comp, "get_modules_for_hook", args(e, [v(e, hook_of(h))]));
+            s.mods.push(l.iter().map(|a| self.mod_ix(&a)).collect());
+        }
+        for m in 0..K {
+            let c: ModCfg = self.q(&self.modules[m], "config", args(e, []));
+            let mut blocked: Vec<usize> = c.blocked.iter().map(|a| self.u.index_of(&a).unwrap_or(99)).collect();
+            blocked.sort();
+            s.mcfg.push(MCfg { tx_ok: c.tx_ok, create_ok: c.create_ok, cap: c.cap, blocked });
+        }
         s
     }
     fn ix(&self, a: &Address) -> String {
         self.u.index_of(a).map(|i| i.to_string()).unwrap_or("?".into())
     }
-    /// decoded events of the last invocation (token events only carry addresses of the universe)
+    /// decoded events of the last invocation (token events + module registration events of the
+    /// compliance contract; token-binder events are not part of the observation)
     fn events(&self) -> String {
         let mut out = vec![];
         for ev in last_events(&self.e) {
             let amt = ev_field(&ev.data, "amount").and_then(sc_i128).map(|x| x.to_string()).unwrap_or("?".into());
             let t0 = ev_addr(&self.u, ev.topics.get(0));
             let t1 = ev_addr(&self.u, ev.topics.get(1));
+            let hook_module = || -> (String, String) {
+                let h = match ev.topics.get(0) {
+                    Some(xdr::ScVal::Vec(Some(vs))) => match vs.first() {
+                        Some(xdr::ScVal::Symbol(s)) => match s.to_utf8_string_lossy().as_str() {
+                            "Transferred" => "0",
+                            "Created" => "1",
+                            "Destroyed" => "2",
+                            "CanTransfer" => "3",
+                            "CanCreate" => "4",
+                            _ => "?",
+                        },
+                        _ => "?",
+                    },
+                    _ => "?",
+                };
+                let m = match ev_field(&ev.data, "module") {
+                    Some(xdr::ScVal::Address(a)) => self.modules.iter().position(|x| sc_address(x) == *a).map(|i| i.to_string()).unwrap_or("?".into()),
+                    _ => "?".into(),
+                };
+                (h.to_string(), m)
+            };
             match ev.name.as_str() {
                 "mint" => out.push(format!("mint:{}:{}", t0, amt)),
                 "burn" => out.push(format!("burn:{}:{}", t0, amt)),
@@ -401,6 +594,15 @@ impl Sim {
                 "recovery_success" => out.push(format!("recovered:{}:{}", t0, t1)),
                 "paused" => out.push("paused".into()),
                 "unpaused" => out.push("unpaused".into()),
+                "module_added" => {
+                    let (h, m) = hook_module();
+                    out.push(format!("madd:{}:{}", h, m))
+                }
+                "module_removed" => {
+                    let (h, m) = hook_module();
+                    out.push(format!("mrem:{}:{}", h, m))
+                }
+                "token_bound" | "token_unbound" => {}
                 other => out.push(format!("other:{}", other)),
             }
         }
@@ -410,8 +612,9 @@ impl Sim {
             out.join(";")
         }
     }
-    /// drains the mocks' call logs: (identity verifier calls, compliance queries, compliance notifications)
-    fn logs(&self) -> (String, String, String) {
+    /// drains the call logs: (identity verifier calls, compliance queries, compliance
+    /// notifications, calls received by the modules grouped by module)
+    fn logs(&self) -> (String, String, String, String) {
         let e = &self.e;
         let il: soroban_sdk::Vec<(u32, Address)> = self.q(&self.idv, "take_log", args(e, []));
         let cl: soroban_sdk::Vec<(u32, Address, Address, i128)> = self.q(&self.comp, "take_log", args(e, []));
@@ -424,8 +627,7 @@ impl Sim {
                 1 => format!("can_create:{}:{}", self.ix(&a), amt),
                 2 => format!("transferred:{}:{}:{}", self.ix(&a), self.ix(&b), amt),
                 3 => format!("created:{}:{}", self.ix(&a), amt),
-                4 => format!("destroyed:{}:{}", self.ix(&a), amt),
-                other => format!("wrongtoken{}:{}:{}:{}", other, self.ix(&a), self.ix(&b), amt),
+                _ => format!("destroyed:{}:{}", self.ix(&a), amt),
             };
             if k == 0 || k == 1 {
                 cq.push(s)
@@ -433,14 +635,27 @@ impl Sim {
                 cn.push(s)
             }
         }
+        let mut ml = vec![];
+        for m in 0..K {
+            let l: soroban_sdk::Vec<(u32, Address, Address, i128)> = self.q(&self.modules[m], "take_log", args(e, []));
+            for (k, a, b, amt) in l.iter() {
+                ml.push(match k {
+                    0 => format!("{}:can_transfer:{}:{}:{}", m, self.ix(&a), self.ix(&b), amt),
+                    1 => format!("{}:can_create:{}:{}", m, self.ix(&a), amt),
+                    2 => format!("{}:on_transfer:{}:{}:{}", m, self.ix(&a), self.ix(&b), amt),
+                    3 => format!("{}:on_created:{}:{}", m, self.ix(&a), amt),
+                    _ => format!("{}:on_destroyed:{}:{}", m, self.ix(&a), amt),
+                });
+            }
+        }
         let j = |v: Vec<String>| if v.is_empty() { "-".to_string() } else { v.join(";") };
-        (j(idv), j(cq), j(cn))
+        (j(idv), j(cq), j(cn), j(ml))
     }
     fn observe(&mut self, t: &mut Trace, ok: bool, ret: &str, evs: String, dem: String) {
-        let (idv, cq, cn) = self.logs();
+        let (idv, cq, cn, ml) = self.logs();
         self.snap = self.read();
         t.obs(&format!(
-            "{} ret={} {} now={} ev={} idv={} cq={} cn={} dem={}",
+            "{} ret={} {} now={} ev={} idv={} cq={} cn={} ml={} dem={}",
             if ok { "ok" } else { "err" },
             ret,
             self.snap.show(),
@@ -449,14 +664,18 @@ impl Sim {
             idv,
             cq,
             cn,
+            ml,
             dem
         ));
     }
-    /// one token entry point through a real invocation with exactly `auth` authorizing
+    /// one entry point of the token or of the compliance contract through a real invocation with
+    /// exactly `auth` authorizing. For `add_module` / `remove_module`, `a = [module, operator]`
+    /// and `lu` carries the hook index.
     fn exec(&mut self, t: &mut Trace, kind: &str, a: &[usize], amount: i128, lu: u32, b: bool, auth: &[usize]) {
         let e = self.e.clone();
         let e = &e;
         let ad = |i: usize| -> Val { self.u.a(i).into_val(e) };
+        let mut target = self.tok.clone();
         let (func, argv): (&str, soroban_sdk::Vec<Val>) = match kind {
             "mint" => ("mint", args(e, [ad(a[0]), v(e, amount), ad(a[1])])),
             "burn" => ("burn", args(e, [ad(a[0]), v(e, amount), ad(a[1])])),
@@ -473,11 +692,27 @@ impl Sim {
             "set_frozen" => ("set_address_frozen", args(e, [ad(a[0]), v(e, b), ad(a[1])])),
             "pause" => ("pause", args(e, [ad(a[0])])),
             "unpause" => ("unpause", args(e, [ad(a[0])])),
+            "add_module" => {
+                target = self.comp.clone();
+                ("add_module_to", args(e, [v(e, hook_of(lu as usize)), v(e, &self.modules[a[0]]), ad(a[1])]))
+            }
+            "remove_module" => {
+                target = self.comp.clone();
+                ("remove_module_from", args(e, [v(e, hook_of(lu as usize)), v(e, &self.modules[a[0]]), ad(a[1])]))
+            }
+            "bind" => {
+                target = self.comp.clone();
+                ("bind_token", args(e, [v(e, &self.tok), ad(a[0])]))
+            }
+            "unbind" => {
+                target = self.comp.clone();
+                ("unbind_token", args(e, [v(e, &self.tok), ad(a[0])]))
+            }
             _ => unreachable!(),
         };
         t.op(&format!("rwa {} a={} amt={} lu={} b={} auth={}", kind, join(a), amount, lu, if b { 1 } else { 0 }, join(auth)));
         let signers: Vec<&Address> = auth.iter().map(|&i| self.u.a(i)).collect();
-        let r = call(e, &self.tok, func, argv, &signers);
+        let r = call(e, &target, func, argv, &signers);
         match r {
             Some(val) => {
                 let dem = join(&demanded(e, &self.u));
@@ -516,20 +751,25 @@ impl Sim {
         call_all_auth(e, &self.idv, "set_target", args(e, [v(e, self.u.a(a)), v(e, tv)])).expect("set_target");
         self.observe(t, true, "-", "-".into(), "-".into());
     }
-    fn env_comp(&mut self, t: &mut Trace, tx_ok: bool, create_ok: bool, cap: i128, blocked: &[usize]) {
+    /// script the verdict of module `m`
+    fn env_mod(&mut self, t: &mut Trace, m: usize, tx_ok: bool, create_ok: bool, cap: i128, blocked: &[usize]) {
         let mut bl: Vec<usize> = blocked.to_vec();
         bl.sort();
         bl.dedup();
         let b = |x: bool| if x { 1 } else { 0 };
-        t.op(&format!("rwa env_comp tx={} create={} cap={} block={}", b(tx_ok), b(create_ok), cap, join(&bl)));
+        t.op(&format!("rwa env_mod m={} tx={} create={} cap={} block={}", m, b(tx_ok), b(create_ok), cap, join(&bl)));
         let e = &self.e;
         let mut bv: soroban_sdk::Vec<Address> = soroban_sdk::Vec::new(e);
         for i in bl.iter() {
             bv.push_back(self.u.a(*i).clone());
         }
-        let cfg = CompCfg { tx_ok, create_ok, cap, blocked: bv };
-        call_all_auth(e, &self.comp, "configure", args(e, [v(e, cfg)])).expect("configure");
+        let cfg = ModCfg { tx_ok, create_ok, cap, blocked: bv };
+        call_all_auth(e, &self.modules[m], "configure", args(e, [v(e, cfg)])).expect("configure");
         self.observe(t, true, "-", "-".into(), "-".into());
+    }
+    /// the single-module sequences script "the compliance contract" through module 0
+    fn env_comp(&mut self, t: &mut Trace, tx_ok: bool, create_ok: bool, cap: i128, blocked: &[usize]) {
+        self.env_mod(t, 0, tx_ok, create_ok, cap, blocked)
     }
 }
 
@@ -566,8 +806,8 @@ fn pick_amount(rng: &mut Rng, s: &Snap, from: Option<usize>, spender: Option<usi
         18 => rng.i128_any(),
         19 => free / 2,
         20 => allow.min(free),
-        21 => s.cap,
-        22 => s.cap.saturating_add(1),
+        21 => s.cap(),
+        22 => s.cap().saturating_add(1),
         23 => bal / 2,
         _ => rng.range(1, 1000) as i128,
     }
@@ -618,6 +858,7 @@ fn gen_auth(rng: &mut Rng, right: &[usize], mentioned: &[usize]) -> Vec<usize> {
 fn scenario_directed(t: &mut Trace) {
     let mut s = Sim::new(1, 100, 0);
     t.seq(&s.label("directed transfer_from through closed gates"));
+    s.single_module(t);
     s.exec(t, "mint", &[1, 0], 100, 0, false, &[0]);
     s.exec(t, "approve", &[1, 3], 80, 5000, false, &[1]);
     s.exec(t, "freeze", &[1, 0], 90, 0, false, &[0]);
@@ -630,6 +871,7 @@ fn scenario_directed(t: &mut Trace) {
     // one gate at a time for transfer_from
     let mut s = Sim::new(1, 100, 0);
     t.seq(&s.label("directed transfer_from one gate at a time"));
+    s.single_module(t);
     s.exec(t, "mint", &[1, 0], 100, 0, false, &[0]);
     s.exec(t, "approve", &[1, 3], 1000, 5000, false, &[1]);
     s.exec(t, "transfer_from", &[3, 1, 2], 1, 0, false, &[3]);
@@ -662,6 +904,7 @@ fn scenario_directed(t: &mut Trace) {
     // supervisory paths: minimal unfreeze, recovery, wrong operator, burn
     let mut s = Sim::new(16, 100, 4);
     t.seq(&s.label("directed supervisory paths"));
+    s.single_module(t);
     s.exec(t, "mint", &[1, 4], 1000, 0, false, &[4]);
     s.exec(t, "mint", &[1, 3], 1000, 0, false, &[3]);
     s.exec(t, "mint", &[1, 4], 1000, 0, false, &[]);
@@ -715,6 +958,7 @@ fn scenario_single_gates(t: &mut Trace, rng: &mut Rng) {
     let (f, to, sp) = (others[r % 4], others[(r + 1) % 4], others[(r + 2) % 4]);
     let mut s = Sim::new(1, 100, admin);
     t.seq(&s.label("single gates"));
+    s.single_module(t);
     s.exec(t, "mint", &[f, admin], 10_000, 0, false, &[admin]);
     s.exec(t, "approve", &[f, sp], 1_000_000, 50_000, false, &[f]);
     s.exec(t, "freeze", &[f, admin], 9_000, 0, false, &[admin]);
@@ -775,6 +1019,7 @@ fn scenario_gate_sweep(t: &mut Trace, rng: &mut Rng, per_combo: usize) {
     let (f, to, sp) = (others[0], others[1], others[2]);
     let mut s = Sim::new(1, 100, admin);
     t.seq(&s.label("gate sweep"));
+    s.single_module(t);
     s.exec(t, "mint", &[f, admin], 1_000_000, 0, false, &[admin]);
     s.exec(t, "mint", &[to, admin], 1_000, 0, false, &[admin]);
     s.exec(t, "approve", &[f, sp], i128::MAX, 100_000, false, &[f]);
@@ -841,12 +1086,181 @@ fn scenario_gate_sweep(t: &mut Trace, rng: &mut Rng, per_combo: usize) {
     }
 }
 
+/// The seeded defect's shape and its neighbours: several CanTransfer / CanCreate modules that
+/// disagree, the rejecting one first / in the middle / last; fan-out of the notification hooks to
+/// different module sets; removal; an unbound token.
+fn scenario_modules_directed(t: &mut Trace) {
+    let mut s = Sim::new(1, 100, 0);
+    t.seq(&s.label("directed modules: veto order"));
+    let max = i128::MAX;
+    s.exec(t, "mint", &[1, 0], 1000, 0, false, &[0]);
+    s.exec(t, "approve", &[1, 3], 500, 5000, false, &[1]);
+    s.exec(t, "add_module", &[0, 0], 0, H_CAN_TRANSFER as u32, false, &[0]);
+    s.exec(t, "add_module", &[1, 0], 0, H_CAN_TRANSFER as u32, false, &[0]);
+    s.exec(t, "add_module", &[1, 0], 0, H_CAN_TRANSFER as u32, false, &[0]);
+    s.exec(t, "add_module", &[2, 1], 0, H_CAN_TRANSFER as u32, false, &[1]);
+    s.exec(t, "add_module", &[1, 0], 0, H_TRANSFERRED as u32, false, &[0]);
+    s.exec(t, "add_module", &[2, 0], 0, H_TRANSFERRED as u32, false, &[0]);
+    // [deny, allow]
+    s.env_mod(t, 0, false, true, max, &[]);
+    s.exec(t, "transfer", &[1, 2], 10, 0, false, &[1]);
+    s.exec(t, "transfer_from", &[3, 1, 2], 10, 0, false, &[3]);
+    // [allow, deny]
+    s.env_mod(t, 0, true, true, max, &[]);
+    s.env_mod(t, 1, false, true, max, &[]);
+    s.exec(t, "transfer", &[1, 2], 10, 0, false, &[1]);
+    s.exec(t, "transfer_from", &[3, 1, 2], 10, 0, false, &[3]);
+    // [allow, allow]
+    s.env_mod(t, 1, true, true, max, &[]);
+    s.exec(t, "transfer", &[1, 2], 10, 0, false, &[1]);
+    s.exec(t, "transfer_from", &[3, 1, 2], 10, 0, false, &[3]);
+    // three modules: [allow, deny, allow], [deny(cap), allow, allow], [allow, allow, deny(blocked)]
+    s.exec(t, "add_module", &[2, 0], 0, H_CAN_TRANSFER as u32, false, &[0]);
+    s.env_mod(t, 1, false, true, max, &[]);
+    s.exec(t, "transfer", &[1, 2], 10, 0, false, &[1]);
+    s.exec(t, "transfer_from", &[3, 1, 2], 10, 0, false, &[3]);
+    s.env_mod(t, 1, true, true, max, &[]);
+    s.env_mod(t, 0, true, true, 9, &[]);
+    s.exec(t, "transfer", &[1, 2], 10, 0, false, &[1]);
+    s.exec(t, "transfer", &[1, 2], 9, 0, false, &[1]);
+    s.exec(t, "transfer_from", &[3, 1, 2], 10, 0, false, &[3]);
+    s.env_mod(t, 0, true, true, max, &[]);
+    s.env_mod(t, 2, true, true, max, &[2]);
+    s.exec(t, "transfer", &[1, 2], 10, 0, false, &[1]);
+    s.exec(t, "transfer", &[1, 4], 10, 0, false, &[1]);
+    s.exec(t, "transfer_from", &[3, 1, 2], 10, 0, false, &[3]);
+    // the rejecting module is removed: the others decide
+    s.exec(t, "remove_module", &[2, 0], 0, H_CAN_TRANSFER as u32, false, &[0]);
+    s.exec(t, "remove_module", &[2, 0], 0, H_CAN_TRANSFER as u32, false, &[0]);
+    s.exec(t, "transfer", &[1, 2], 10, 0, false, &[1]);
+    // remove the first, re-add it last: order changes
+    s.exec(t, "remove_module", &[0, 0], 0, H_CAN_TRANSFER as u32, false, &[0]);
+    s.exec(t, "add_module", &[0, 0], 0, H_CAN_TRANSFER as u32, false, &[0]);
+    s.env_mod(t, 1, false, true, max, &[]);
+    s.exec(t, "transfer", &[1, 2], 10, 0, false, &[1]);
+    s.env_mod(t, 1, true, true, max, &[]);
+    // mint: CanCreate modules [2, 0]; Created -> 0; Destroyed -> 1, 2
+    s.exec(t, "add_module", &[2, 0], 0, H_CAN_CREATE as u32, false, &[0]);
+    s.exec(t, "add_module", &[0, 0], 0, H_CAN_CREATE as u32, false, &[0]);
+    s.exec(t, "add_module", &[0, 0], 0, H_CREATED as u32, false, &[0]);
+    s.exec(t, "add_module", &[1, 0], 0, H_DESTROYED as u32, false, &[0]);
+    s.exec(t, "add_module", &[2, 0], 0, H_DESTROYED as u32, false, &[0]);
+    s.exec(t, "mint", &[4, 0], 5, 0, false, &[0]);
+    s.env_mod(t, 2, true, false, max, &[2]);
+    s.exec(t, "mint", &[4, 0], 5, 0, false, &[0]);
+    s.env_mod(t, 2, true, true, max, &[]);
+    s.env_mod(t, 0, true, false, max, &[]);
+    s.exec(t, "mint", &[4, 0], 5, 0, false, &[0]);
+    s.env_mod(t, 0, true, true, max, &[]);
+    s.exec(t, "mint", &[4, 0], 5, 0, false, &[0]);
+    s.exec(t, "burn", &[4, 0], 3, 0, false, &[0]);
+    s.exec(t, "forced_transfer", &[1, 4, 0], 7, 0, false, &[0]);
+    // an unbound token cannot notify: every move fails
+    s.exec(t, "unbind", &[0], 0, 0, false, &[0]);
+    s.exec(t, "unbind", &[0], 0, 0, false, &[0]);
+    s.exec(t, "transfer", &[1, 2], 1, 0, false, &[1]);
+    s.exec(t, "mint", &[4, 0], 5, 0, false, &[0]);
+    s.exec(t, "burn", &[4, 0], 1, 0, false, &[0]);
+    s.exec(t, "bind", &[1], 0, 0, false, &[1]);
+    s.exec(t, "bind", &[0], 0, 0, false, &[0]);
+    s.exec(t, "bind", &[0], 0, 0, false, &[0]);
+    s.exec(t, "transfer", &[1, 2], 1, 0, false, &[1]);
+}
+
+/// every ordered registration of a subset of the modules (16 arrangements of 3 modules) for
+/// CanTransfer and CanCreate, crossed with every combination of module verdicts (Gray-code walk,
+/// one module re-scripted per step; a rejection is a flag, an amount cap, or a blocked party), for
+/// transfer, transfer_from and mint; the notification hooks get independent random arrangements
+fn scenario_module_matrix(t: &mut Trace, rng: &mut Rng, arrangements: usize) {
+    let mut all: Vec<Vec<usize>> = vec![vec![]];
+    for a in 0..K {
+        all.push(vec![a]);
+        for b in 0..K {
+            if b != a {
+                all.push(vec![a, b]);
+                for c in 0..K {
+                    if c != a && c != b {
+                        all.push(vec![a, b, c]);
+                    }
+                }
+            }
+        }
+    }
+    // the interesting ones (two or more modules) first when only a sample is run
+    all.sort_by_key(|v| std::cmp::Reverse(v.len()));
+    let start = rng.below(6) as usize;
+    all[..6].rotate_left(start);
+    for arr in all.iter().take(arrangements) {
+        let admin = rng.below(N as u64) as usize;
+        let others: Vec<usize> = (0..N).filter(|x| *x != admin).collect();
+        let (f, to, sp) = (others[0], others[1], others[2]);
+        let mut s = Sim::new(1, 100, admin);
+        let arr_s: Vec<String> = arr.iter().map(|x| x.to_string()).collect();
+        t.seq(&s.label(&format!("module matrix order={}", if arr_s.is_empty() { "-".into() } else { arr_s.join(".") })));
+        s.exec(t, "mint", &[f, admin], 100_000, 0, false, &[admin]);
+        s.exec(t, "approve", &[f, sp], 1_000_000, 50_000, false, &[f]);
+        for m in arr.iter() {
+            s.exec(t, "add_module", &[*m, admin], 0, H_CAN_TRANSFER as u32, false, &[admin]);
+        }
+        for m in arr.iter().rev() {
+            s.exec(t, "add_module", &[*m, admin], 0, H_CAN_CREATE as u32, false, &[admin]);
+        }
+        for h in [H_TRANSFERRED, H_CREATED, H_DESTROYED] {
+            let pick = rng.pick(&all).clone();
+            for m in pick {
+                s.exec(t, "add_module", &[m, admin], 0, h as u32, false, &[admin]);
+            }
+        }
+        let mut prev = 0u32;
+        for step in 0..(1u32 << K) {
+            let g = step ^ (step >> 1);
+            let changed = g ^ prev;
+            prev = g;
+            let amt = rng.range(2, 50) as i128;
+            if changed != 0 {
+                let m = changed.trailing_zeros() as usize;
+                if g & changed != 0 {
+                    // module m rejects, in one of three ways
+                    match rng.below(3) {
+                        0 => s.env_mod(t, m, false, false, i128::MAX, &[]),
+                        1 => s.env_mod(t, m, true, true, amt - 1, &[]),
+                        _ => s.env_mod(t, m, true, true, i128::MAX, &[to]),
+                    }
+                } else {
+                    s.env_mod(t, m, true, true, i128::MAX, &[]);
+                }
+            }
+            s.exec(t, "transfer", &[f, to], amt, 0, false, &[f]);
+            s.exec(t, "transfer_from", &[sp, f, to], amt, 0, false, &[sp]);
+            s.exec(t, "mint", &[to, admin], amt, 0, false, &[admin]);
+            if rng.chance(30) {
+                s.exec(t, "burn", &[f, admin], amt, 0, false, &[admin]);
+            }
+            if rng.chance(30) {
+                s.exec(t, "forced_transfer", &[f, to, admin], amt, 0, false, &[admin]);
+            }
+        }
+    }
+}
+
 fn scenario_random(t: &mut Trace, rng: &mut Rng, k: u64, seed: u64, len: u64) {
     let min_temp = if rng.chance(50) { 1 } else { 16 };
     let start = *rng.pick(&[2u32, 100, 5000]);
     let admin = rng.below(N as u64) as usize;
     let mut s = Sim::new(min_temp, start, admin);
     t.seq(&s.label(&format!("rand k={} seed={}", k, seed)));
+    // a random initial registry: per hook a random subset of the modules in a random order
+    for h in 0..5 {
+        let mut order: Vec<usize> = (0..K).collect();
+        for i in (1..K).rev() {
+            order.swap(i, rng.below(i as u64 + 1) as usize);
+        }
+        for m in order {
+            if rng.chance(55) {
+                s.exec(t, "add_module", &[m, admin], 0, h as u32, false, &[admin]);
+            }
+        }
+    }
     let p = |rng: &mut Rng| rng.below(N as u64) as usize;
     for _ in 0..len {
         let snap = s.snap.clone();
@@ -868,8 +1282,11 @@ fn scenario_random(t: &mut Trace, rng: &mut Rng, k: u64, seed: u64, len: u64) {
                 let a = *rng.pick(&closed_id);
                 s.env_id(t, a, true);
                 continue;
-            } else if (!snap.tx_ok || !snap.create_ok || !snap.blocked.is_empty() || snap.cap < 1000) && rng.chance(50) {
-                s.env_comp(t, true, true, if rng.chance(70) { i128::MAX } else { rng.range(500, 5000) as i128 }, &[]);
+            } else if let (Some(m), true) = (snap.comp_closed(), rng.chance(50)) {
+                s.env_mod(t, m, true, true, if rng.chance(70) { i128::MAX } else { rng.range(1000, 5000) as i128 }, &[]);
+                continue;
+            } else if !snap.bound && rng.chance(70) {
+                s.exec(t, "bind", &[admin], 0, 0, false, &[admin]);
                 continue;
             }
         }
@@ -883,7 +1300,7 @@ fn scenario_random(t: &mut Trace, rng: &mut Rng, k: u64, seed: u64, len: u64) {
         } else if r < 27 {
             let f = holder(rng);
             let to = if rng.chance(10) { f } else { p(rng) };
-            let amt = if rng.chance(60) { valid_amount(rng, snap.free(f).min(snap.cap)) } else { pick_amount(rng, &snap, Some(f), None) };
+            let amt = if rng.chance(60) { valid_amount(rng, snap.free(f).min(snap.cap())) } else { pick_amount(rng, &snap, Some(f), None) };
             let auth = gen_auth(rng, &[f], &[f, to]);
             s.exec(t, "transfer", &[f, to], amt, 0, false, &auth);
         } else if r < 41 {
@@ -896,7 +1313,7 @@ fn scenario_random(t: &mut Trace, rng: &mut Rng, k: u64, seed: u64, len: u64) {
             };
             let to = if rng.chance(10) { f } else { p(rng) };
             let amt = if rng.chance(60) {
-                valid_amount(rng, snap.free(f).min(snap.cap).min(snap.allowance(f, sp)))
+                valid_amount(rng, snap.free(f).min(snap.cap()).min(snap.allowance(f, sp)))
             } else {
                 pick_amount(rng, &snap, Some(f), Some(sp))
             };
@@ -986,7 +1403,8 @@ fn scenario_random(t: &mut Trace, rng: &mut Rng, k: u64, seed: u64, len: u64) {
             let a = p(rng);
             let ok = if snap.id[a] { rng.chance(50) } else { rng.chance(85) };
             s.env_id(t, a, ok);
-        } else if r < 98 {
+        } else if r < 97 {
+            let m = rng.below(K as u64) as usize;
             let tx = rng.chance(75);
             let cr = rng.chance(80);
             let cap = if rng.chance(60) { i128::MAX } else { rng.range(0, 1500) as i128 };
@@ -994,7 +1412,23 @@ fn scenario_random(t: &mut Trace, rng: &mut Rng, k: u64, seed: u64, len: u64) {
             if rng.chance(30) {
                 bl.push(p(rng));
             }
-            s.env_comp(t, tx, cr, cap, &bl);
+            s.env_mod(t, m, tx, cr, cap, &bl);
+        } else if r < 98 {
+            // administration of the compliance contract
+            let op = operator(rng);
+            let auth = gen_auth(rng, &[op], &[op]);
+            match rng.below(10) {
+                0 => s.exec(t, if snap.bound { "unbind" } else { "bind" }, &[op], 0, 0, false, &auth),
+                1 => s.exec(t, if snap.bound { "bind" } else { "unbind" }, &[op], 0, 0, false, &auth),
+                x => {
+                    let h = rng.below(5) as usize;
+                    let m = rng.below(K as u64) as usize;
+                    let registered = snap.mods[h].contains(&m);
+                    // mostly the applicable one of add / remove
+                    let kind = if registered == (x < 8) { "remove_module" } else { "add_module" };
+                    s.exec(t, kind, &[m, op], 0, h as u32, false, &auth)
+                }
+            }
         } else if r < 99 {
             let a = p(rng);
             let tg = if rng.chance(80) { Some(p(rng)) } else { None };
@@ -1016,6 +1450,8 @@ fn main() {
     let per_combo = arg_u64("--per-combo", if thorough { 4 } else { 2 }) as usize;
     let mut rng = Rng::new(seed);
     scenario_directed(&mut t);
+    scenario_modules_directed(&mut t);
+    scenario_module_matrix(&mut t, &mut rng, if thorough { 16 } else { 6 });
     for _ in 0..(if thorough { 4 } else { 2 }) {
         scenario_single_gates(&mut t, &mut rng);
     }
